@@ -109,6 +109,9 @@ func runSeq(cfg Config) {
 		env.Hub.Record = bf != nil
 		r := &Runner{Env: env, Rec: &Recorder{}, MaxTime: time.Duration(envInt("VERIF_MAXTIME_MS", 120000)) * time.Millisecond}
 		for ti, spec := range p.Txns {
+			if cfg.Gen.ClearL2 > 0 && rnd.Intn(100) < cfg.Gen.ClearL2 {
+				env.L2.Clear(ctx) // a cache perturbation is not an action of the model: nothing may change
+			}
 			if _, err := r.RunTxn(ctx, fmt.Sprintf("t%d", ti+1), &p, spec, nil); err != nil {
 				r.Rec.Add(Ev{Ev: "HarnessError", Note: errs(err)})
 				break
